@@ -355,7 +355,9 @@ class CallGraph(object):
             for k in mro[1:]:
                 m = self.db.own_method(k, f.attr)
                 if m is not None:
-                    out.append((m, 1, ('inst', fi.cls)))
+                    # a static method found through super() binds nothing
+                    out.append((m, 0 if m.kind == 'static' else 1,
+                                ('inst', fi.cls)))
                     break
             return out
         # name-mangled private helper  self.__read  ->  _Cls__read
